@@ -104,6 +104,8 @@ struct Ctx {
     seeded: BTreeMap<u64, Vec<Content>>,
     history: Vec<String>,
     lossy: bool,
+    /// nodes whose periodic replication has already served targets in this history (their targets may be throttled)
+    served: Vec<bool>,
     slow_histories: u64,
 }
 
@@ -311,6 +313,7 @@ fn exec_inner(ctx: &mut Ctx, out: &mut Out, ws: &[&str]) -> Option<(Option<Strin
             ctx.held = vec![BTreeMap::new(); n as usize];
             ctx.seeded.clear();
             ctx.lossy = false;
+            ctx.served = vec![false; n as usize];
             out.count("history");
             Some((None, "ok".into()))
         }
@@ -436,6 +439,45 @@ fn exec_inner(ctx: &mut Ctx, out: &mut Out, ws: &[&str]) -> Option<(Option<Strin
                     .collect();
                 ks.sort();
                 lists.push(join(ks.into_iter().map(|(k, t)| format!("{k}={t}")).collect()));
+            }
+            // replication candidates computed here: all known peers within `<=` the range when at least CLOSE_GROUP of them
+            // are, else the CLOSE_GROUP closest
+            let rt_now = ctx.rts[i].clone();
+            let cand_now: Vec<u64> = match &ctx.ranges[i] {
+                Some(r) => {
+                    let inr: Vec<u64> = rt_now.iter().copied().filter(|p| ctx.uni.dists[i].get(p).map(|d| d <= r).unwrap_or(false)).collect();
+                    if inr.len() >= CLOSE_GROUP {
+                        inr
+                    } else {
+                        rt_now.iter().copied().take(CLOSE_GROUP).collect()
+                    }
+                }
+                None => rt_now.iter().copied().take(CLOSE_GROUP).collect(),
+            };
+            // oracle (2b): the first periodic replication of a node that holds records (nothing throttled yet) reaches
+            // EVERY replication candidate — in particular the peer sitting exactly on the range boundary
+            if !ctx.served[i] && !ctx.held[i].is_empty() {
+                let want: Vec<String> = cand_now.iter().map(|c| c.to_string()).collect();
+                if targets_of(ctx, &log) != want {
+                    let what = format!(
+                        "node {i} holds records and replicated to [{}], its replication candidates are [{}] (range {:?})",
+                        targets_of(ctx, &log).join(","),
+                        want.join(","),
+                        ctx.ranges[i].as_ref().map(|r| r.to_string())
+                    );
+                    fail(out, ctx, "advertises_everything", what);
+                }
+                if ctx.ranges[i].is_some() {
+                    out.count("interval:first-with-range");
+                    if let Some(r) = &ctx.ranges[i] {
+                        if rt_now.iter().any(|p| ctx.uni.dists[i].get(p) == Some(r)) && cand_now.len() > CLOSE_GROUP {
+                            out.count("interval:boundary-peer-in-range");
+                        }
+                    }
+                }
+            }
+            if !log.reps.is_empty() {
+                ctx.served[i] = true;
             }
             // oracle (2): every list is exactly the held index, with the record type the held bytes determine
             if !log.reps.is_empty() {
@@ -699,6 +741,10 @@ fn exec_inner(ctx: &mut Ctx, out: &mut Out, ws: &[&str]) -> Option<(Option<Strin
     }
 }
 
+fn targets_of(ctx: &Ctx, log: &StepLog) -> Vec<String> {
+    log.reps.iter().map(|(p, _)| ctx.sim.as_ref().map(|s| s.pid(p)).unwrap_or_default()).collect()
+}
+
 fn fail_str(ctx: &mut Ctx, log: &StepLog) -> String {
     let mut v: Vec<u64> = log.failed.iter().map(|p| ctx.uni.peer_ids.get(p).copied().unwrap_or(9999)).collect();
     v.sort();
@@ -839,7 +885,76 @@ fn pending(ctx: &Ctx) -> Vec<(u64, char, u64)> {
         .unwrap_or_default()
 }
 
+/// target selection at the range boundary: >= 7 known peers, range = exact distance of a chosen peer (the run loop uses
+/// the (CLOSE_GROUP+1)-th closest), that distance +-1, 0 or the maximum
+fn gen_boundary_history(ctx: &mut Ctx, out: &mut Out, rng: &mut Rng, budget: &mut i64) {
+    let n = if rng.chance(1, 2) { 2 } else { 3 } as usize;
+    let run = |ctx: &mut Ctx, out: &mut Out, l: String, budget: &mut i64| {
+        exec(ctx, out, &l);
+        *budget -= 1;
+    };
+    run(ctx, out, format!("new {n}"), budget);
+    for i in 0..n {
+        let mut peers: Vec<u64> = (0..n as u64).filter(|j| *j != i as u64).collect();
+        let s = rng.range(6, 10) as usize;
+        peers.extend(ctx.uni.close_strangers[i].iter().take(s).copied());
+        let l = rt_line(&ctx.uni, i, &peers);
+        run(ctx, out, l, budget);
+    }
+    let keys: Vec<u64> = vec![rng.below(6) * 3, rng.below(6) * 3 + 2];
+    for i in 0..n {
+        let l = kd_line(&ctx.uni, i, &keys);
+        run(ctx, out, l, budget);
+    }
+    for i in 0..n {
+        let rt = ctx.rts[i].clone();
+        let one = BigUint::from(1u8);
+        let d = match rng.below(10) {
+            0 => BigUint::from(0u8),
+            1 => (BigUint::from(1u8) << 256) - 1u8,
+            2 | 3 | 4 => ctx.uni.dists[i][&rt[CLOSE_GROUP]].clone(),
+            5 => ctx.uni.dists[i][&rt[CLOSE_GROUP]].clone() + &one,
+            6 => ctx.uni.dists[i][&rt[CLOSE_GROUP]].clone() - &one,
+            7 => ctx.uni.dists[i][&rt[CLOSE_GROUP - 1]].clone(),
+            8 => ctx.uni.dists[i][&rt[CLOSE_GROUP - 1]].clone() - &one,
+            _ => ctx.uni.dists[i][rng.pick(&rt[..])].clone(),
+        };
+        run(ctx, out, format!("range {i} {d}"), budget);
+    }
+    for i in 0..n {
+        for k in &keys {
+            if rng.chance(2, 3) {
+                let c = random_content(rng, *k, false);
+                run(ctx, out, format!("seed {i} {k} {}", content_token(&c)), budget);
+            }
+        }
+    }
+    let mut order: Vec<usize> = (0..n).collect();
+    rng.shuffle(&mut order);
+    for i in order {
+        run(ctx, out, format!("interval {i}"), budget);
+    }
+    let mut guard = 0;
+    loop {
+        let p = pending(ctx);
+        if p.is_empty() || guard > 60 {
+            break;
+        }
+        guard += 1;
+        let (id, kind, to) = *rng.pick(&p);
+        if kind == 'g' && to >= n as u64 {
+            run(ctx, out, format!("drop {id}"), budget);
+        } else {
+            run(ctx, out, format!("deliver {id}"), budget);
+        }
+    }
+    run(ctx, out, "dump".into(), budget);
+}
+
 fn gen_history(ctx: &mut Ctx, out: &mut Out, rng: &mut Rng, budget: &mut i64) {
+    if rng.chance(1, 5) {
+        return gen_boundary_history(ctx, out, rng, budget);
+    }
     let n = if rng.chance(1, 2) { 2 } else { 3 } as usize;
     let meshed = rng.chance(3, 5);
     let run = |ctx: &mut Ctx, out: &mut Out, l: String, budget: &mut i64| {
@@ -988,6 +1103,44 @@ fn corpus(uni: &Universe) -> Vec<String> {
         v.push(kd_line(uni, 0, keys));
         v.push(kd_line(uni, 1, keys));
     };
+    // target selection on the boundary (runs first): node 0 knows 7 peers, its range is exactly the distance of its 6th
+    // closest peer (what the run loop computes from closest_k_peers[CLOSE_GROUP_SIZE + 1]): six targets, the boundary peer included
+    {
+        let mut peers: Vec<u64> = uni.close_strangers[0].iter().take(6).copied().collect();
+        peers.push(1);
+        let mut sorted: Vec<(BigUint, u64)> = peers.iter().map(|p| (uni.dists[0][p].clone(), *p)).collect();
+        sorted.sort();
+        v.push("new 2".into());
+        v.push(rt_line(uni, 0, &peers));
+        v.push(rt_line(uni, 1, &[0]));
+        v.push(kd_line(uni, 0, &[0]));
+        v.push(kd_line(uni, 1, &[0]));
+        v.push(format!("range 0 {}", sorted[CLOSE_GROUP].0));
+        v.push("seed 0 0 C".into());
+        v.push("interval 0".into());
+        v.push("dump".into());
+        // one below the boundary distance: five peers in range, still no fallback
+        v.push("new 2".into());
+        v.push(rt_line(uni, 0, &peers));
+        v.push(rt_line(uni, 1, &[0]));
+        v.push(kd_line(uni, 0, &[0]));
+        v.push(kd_line(uni, 1, &[0]));
+        v.push(format!("range 0 {}", sorted[CLOSE_GROUP].0.clone() - BigUint::from(1u8)));
+        v.push("seed 0 0 C".into());
+        v.push("interval 0".into());
+        v.push("dump".into());
+        // range = distance of the farthest known peer (node 1): everybody, node 1 included, is a target
+        v.push("new 2".into());
+        v.push(rt_line(uni, 0, &peers));
+        v.push(rt_line(uni, 1, &[0]));
+        v.push(kd_line(uni, 0, &[0]));
+        v.push(kd_line(uni, 1, &[0]));
+        v.push(format!("range 0 {}", sorted[6].0));
+        v.push("seed 0 0 C".into());
+        v.push("interval 0".into());
+        v.push("deliver 1".into());
+        v.push("dump".into());
+    }
     // K-g: scratchpads with different counters never converge
     mesh2(&mut v, &[1]);
     for l in ["seed 0 1 S1", "seed 1 1 S2", "interval 0", "deliver 1", "interval 1", "deliver 2", "tick 0 50", "tick 1 50", "interval 0", "deliver 3", "interval 1", "deliver 4", "dump"] {
@@ -1040,6 +1193,7 @@ fn main() {
         seeded: BTreeMap::new(),
         history: vec![],
         lossy: false,
+        served: vec![],
         slow_histories: 0,
     };
     if let Some(p) = &args.replay {
